@@ -39,6 +39,9 @@ class LifeInterp(FinamInterp):
         self.trace = []  # (comp, phase)
         self.handler = Obj(label="log-handler")
         self.handler_closed = 0
+        self.slots = []  # (slot stub, has own limit, has own location)
+        self.memory_at_first_connect = None
+        self.slot_finalized = []
 
     # ----- externals nobody looks into
     def ext_call(self, name, args, kwargs, node):
@@ -63,6 +66,8 @@ class LifeInterp(FinamInterp):
             return OPAQUE
         if isinstance(obj, Obj) and "component" in obj.markers and attr in PHASES:
             return Sym("lc", Ref(obj), attr)
+        if isinstance(obj, Obj) and "slot-stub" in obj.markers and attr in ("finalize", "ping", "pinged"):
+            return Sym("slotstub", Ref(obj), attr)
         if isinstance(obj, Obj) and obj.label in ("slots",) and attr in ("set_logger", "items", "values", "keys"):
             return Sym("slotcall", attr, Ref(obj))
         return super().get_attr(obj, attr, node, mod)
@@ -94,8 +99,14 @@ class LifeInterp(FinamInterp):
         if isinstance(fv, Sym) and fv.op == "slotcall":
             items = fv.args[1].obj.fields.get("_slot_items", [])
             return {"items": list(items), "values": [v for _k, v in items], "keys": [k for k, _v in items]}.get(fv.args[0])
+        if isinstance(fv, Sym) and fv.op == "slotstub":
+            if fv.args[1] == "finalize":
+                self.slot_finalized.append(fv.args[0].obj.label)
+            return None
         if isinstance(fv, Sym) and fv.op == "lc":
             comp, phase = fv.args[0].obj, fv.args[1]
+            if phase == "connect" and self.memory_at_first_connect is None:
+                self.memory_at_first_connect = {sl.label: (sl.fields["memory_limit"], sl.fields["memory_location"]) for sl, _a, _b in self.slots}
             sc = self.script[comp.label]
             self.trace.append((comp.label, phase))
             if len(self.trace) > 400:
@@ -107,6 +118,8 @@ class LifeInterp(FinamInterp):
                 new = AFTER[phase]
             if phase == "update":
                 comp.fields["time"] = comp.fields["time"] + sc.get("step", 1)
+                if sc.get("finish_at") is not None and comp.fields["time"] >= sc["finish_at"]:
+                    new = "FINISHED"  # the component declares itself finished
             fail = sc.get("fail")
             if fail and fail[0] == phase:
                 new = fail[1]
@@ -122,12 +135,19 @@ def _comp(name, t0):
     return c
 
 
-def _drive(repo, script, end=6, timed=True, connect_twice=False, dangling_input=False):
+def _slot(label, kind, own_limit, own_loc):
+    o = Obj(label=label, markers={"IOutput", "slot-stub"} | ({"IAdapter", "IInput"} if kind == "adapter" else set()))
+    o.fields.update(memory_limit=Sym("own_limit") if own_limit else None, memory_location=Sym("own_loc") if own_loc else None,
+                    targets=[], name=label, is_static=False, needs_push=False, needs_pull=False, source=None)
+    return o
+
+
+def _drive(repo, script, end=6, timed=True, connect_twice=False, dangling_input=False, memory_slots=False, ctor=None):
     """Constructor, connect (through run) and run of a composition of the scripted components.
     Returns (interp, outcome) with outcome None | exception name."""
     from ..absbase import seed_from_init
     comp_cls = repo.cls("Composition")
-    comps = [_comp(n, 0) for n in script]
+    comps = [_comp(n, script[n].get("_t0", 0)) for n in script]
     it = LifeInterp(repo, script)
     it.max_loop = 1000
     if not timed:
@@ -140,12 +160,25 @@ def _drive(repo, script, end=6, timed=True, connect_twice=False, dangling_input=
         seed_from_init(it, icls, inp, {"name": "in", "info": None, "static": False})
         inp.fields["logger"] = Logger(label="logger")
         comps[0].fields["inputs"].fields["_slot_items"] = [("in", inp)]
+    if memory_slots:
+        outs = []
+        for own_limit in (False, True):
+            for own_loc in (False, True):
+                tag = f"limit={'own' if own_limit else 'unset'},location={'own' if own_loc else 'unset'}"
+                out = _slot(f"output({tag})", "output", own_limit, own_loc)
+                ada = _slot(f"adapter({tag})", "adapter", own_limit, own_loc)
+                out.fields["targets"] = [ada]
+                ada.fields["source"] = out
+                outs.append((f"o{len(outs)}", out))
+                it.slots.append((out, own_limit, own_loc))
+                it.slots.append((ada, own_limit, own_loc))
+        comps[0].fields["outputs"].fields["_slot_items"] = outs
     me = Obj(cls=comp_cls, label="composition")
     init = repo.resolve(comp_cls, "__init__", "method")
     run = repo.resolve(comp_cls, "run", "method")
     conn = repo.resolve(comp_cls, "connect", "method")
     try:
-        it.run(init, [comps], {}, self_obj=me)
+        it.run(init, [comps], dict(ctor or {}), self_obj=me)
         if connect_twice:
             it.run(conn, [0], {}, self_obj=me)
             it.run(conn, [0], {}, self_obj=me)
@@ -246,3 +279,222 @@ def r06t_trace(repo, sink):
                    bad=f"composition with an unconnected input: outcome {outcome}, life-cycle calls {seq}")
     except (AnalysisError, Undecided) as exc:
         sink.unknown("R06", "life-trace:special", run, f"outside vocabulary: {exc}")
+
+
+def r25w_memory_wiring(repo, sink):
+    """Before any component connects (= before data is exchanged) every output and every adapter
+    of the composition has the composition's memory limit / location where it has none of its
+    own, and keeps its own setting otherwise; every collected adapter is finalized at the end.
+    Observed on the trace of the real constructor, connect() and run()."""
+    comp_cls = repo.cls("Composition")
+    conn = repo.resolve(comp_cls, "connect", "method")
+    try:
+        it, outcome = _drive(repo, {"A": dict(step=2, connect_calls=1), "B": dict(step=3, connect_calls=1)}, memory_slots=True,
+                             ctor={"slot_memory_limit": Sym("LIMIT"), "slot_memory_location": Sym("LOCATION")})
+    except (AnalysisError, Undecided) as exc:
+        sink.unknown("R25", "composition-hands-limit", conn, f"constructor / connect / run outside vocabulary: {exc}")
+        return
+    if outcome is not None or it.memory_at_first_connect is None:
+        sink.unknown("R25", "composition-hands-limit", conn, f"the scripted composition with stand-in outputs and adapters ends in {outcome}")
+        return
+    for kind in ("output", "adapter"):
+        why = None
+        for sl, own_limit, own_loc in it.slots:
+            if not sl.label.startswith(kind):
+                continue
+            got = it.memory_at_first_connect[sl.label]
+            want = (Sym("own_limit") if own_limit else Sym("LIMIT"), Sym("own_loc") if own_loc else Sym("LOCATION"))
+            if got != want:
+                why = why or (f"{sl.label}: when the first component connects it has limit {got[0]!r}, location {got[1]!r}; expected {want[0]!r}, "
+                              f"{want[1]!r} (each unset setting takes the composition's value independently, own settings are kept)")
+        sink.check(why is None, "R25", f"composition-hands-limit-to:{kind}s", conn,
+                   ok=f"every unset memory limit / location of the {kind}s takes the composition's value before data is exchanged, own settings are kept",
+                   bad=why or "")
+    adapters = sorted(sl.label for sl, _a, _b in it.slots if sl.label.startswith("adapter"))
+    sink.check(sorted(it.slot_finalized) == adapters, "R25", "adapters-finalized", conn,
+               ok="every adapter reachable from the components' outputs is finalized once at the end of the run",
+               bad=f"adapters finalized at the end: {sorted(it.slot_finalized)}, expected each of {adapters} once")
+
+
+# =========================================================================== R07 (semantic)
+class _WrapInterp(FinamInterp):
+    """Runs a life-cycle wrapper of Component on a component whose hook leaves a scripted status."""
+
+    def __init__(self, repo, hook, leaves):
+        super().__init__(repo)
+        self.hook, self.leaves = hook, leaves
+        self.hook_calls = 0
+        self.out_finalized = 0
+
+    def ext_isinstance(self, v, name, node):
+        if name == "datetime":
+            return isinstance(v, int) and not isinstance(v, bool)
+        return super().ext_isinstance(v, name, node)
+
+    def get_attr(self, obj, attr, node, mod):
+        if isinstance(obj, Obj) and obj.label == "slots" and attr in ("items", "values", "keys"):
+            return Sym("slotcall", attr, Ref(obj))
+        if isinstance(obj, Obj) and obj.label == "out-stub" and attr == "finalize":
+            return Sym("outfin")
+        if isinstance(obj, Obj) and obj.label == "in-stub" and attr == "ping":
+            return Sym("inping")
+        return super().get_attr(obj, attr, node, mod)
+
+    def set_attr(self, obj, attr, value, node):
+        return super().set_attr(obj, attr, value, node)
+
+    def iterate(self, v, node):
+        if isinstance(v, Obj) and v.label == "slots":
+            return [k for k, _v in v.fields.get("_slot_items", [])]
+        return super().iterate(v, node)
+
+    def call_hook(self, fv, args, kwargs, node, mod):
+        if isinstance(fv, Sym) and fv.op == "slotcall":
+            items = fv.args[1].obj.fields.get("_slot_items", [])
+            return {"items": list(items), "values": [v for _k, v in items], "keys": [k for k, _v in items]}[fv.args[0]]
+        if isinstance(fv, Sym) and fv.op == "outfin":
+            self.out_finalized += 1
+            return None
+        if isinstance(fv, Sym) and fv.op == "inping":
+            return None
+        if isinstance(fv, Closure) and fv.self_obj is not None and getattr(fv.func, "name", "") == self.hook:
+            self.hook_calls += 1
+            if self.leaves is not None:
+                self.store_attr(fv.self_obj, "status", _st(self.leaves), node)
+            return None
+        return super().call_hook(fv, args, kwargs, node, mod)
+
+
+def r07w_wrappers(repo, sink):
+    """Decision table of the @final life-cycle wrappers of Component: the hook runs exactly once;
+    afterwards the status is the phase's default unless the hook reported FAILED (every phase)
+    or FINISHED (update) - those are kept."""
+    from ..absbase import seed_from_init
+    ccls = repo.cls("TimeComponent") if repo.has_cls("TimeComponent") else repo.cls("Component")
+    table = {"initialize": ("CREATED", "INITIALIZED"), "validate": ("CONNECTED", "VALIDATED"), "update": ("VALIDATED", "UPDATED"),
+             "finalize": ("UPDATED", "FINALIZED")}
+    for phase, (before, default) in table.items():
+        f = repo.resolve(ccls, phase, "method")
+        if f is None:
+            sink.unknown("R07", f"wrapper:{phase}", None, f"Component.{phase} not found")
+            continue
+        worst = None
+        leaves = [None, "FAILED"] + (["FINISHED"] if phase == "update" else [])
+        try:
+            for lv in leaves:
+                it = _WrapInterp(repo, "_" + phase, lv)
+                me = Obj(cls=ccls, label="component")
+                seed_from_init(it, ccls, me, {})
+                slots_in, slots_out = Obj(label="slots"), Obj(label="slots")
+                slots_out.fields["_slot_items"] = [("o", Obj(label="out-stub"))]
+                me.fields.update(logger=Logger(label="logger"), name="c", _name="c", time=0)
+                it.store_attr(me, "status", _st(before), None)
+                # the slot collections, under whatever attribute the class keeps them
+                for k in [k for k, v in me.fields.items() if isinstance(v, Obj) and getattr(v.cls, "name", "") in ("IOManager",)]:
+                    del me.fields[k]
+                me.fields["inputs"], me.fields["outputs"] = slots_in, slots_out
+                try:
+                    it.run(f, [], self_obj=me)
+                except Raised as r:
+                    worst = worst or f"hook leaves {lv or 'the status alone'}: {phase}() raises {r.name}"
+                    continue
+                g = repo.resolve(ccls, "status", "getter")
+                got = it.run(g, [], self_obj=me) if g is not None else me.fields.get("status")
+                want = _st(lv) if lv else _st(default)
+                if it.hook_calls != 1:
+                    worst = worst or f"{phase}() calls _{phase}() {it.hook_calls} times"
+                elif got != want:
+                    worst = worst or (f"_{phase}() {'leaves the status alone' if lv is None else 'reports ' + lv}: afterwards the status is "
+                                      f"{got.args[1] if isinstance(got, Sym) else got!r}, must be {want.args[1]}"
+                                      + (": a component that finished itself is updated again" if lv == "FINISHED" else ""))
+                elif phase == "finalize" and it.out_finalized != 1:
+                    worst = worst or f"finalize() finalizes its outputs {it.out_finalized} times"
+        except (AnalysisError, Undecided) as exc:
+            sink.unknown("R07", f"wrapper:{phase}", f, f"{phase}() outside vocabulary: {exc}")
+            continue
+        sink.check(worst is None, "R07", f"wrapper:{phase}", f,
+                   ok=f"{phase}(): hook once; status {default} afterwards unless the hook reported FAILED" + (" / FINISHED" if phase == "update" else ""),
+                   bad=worst or "")
+
+
+def r07w_connect(repo, sink):
+    """connect(): the first call (status INITIALIZED) pings the inputs and does not run the hook;
+    every later call runs the hook exactly once with the start time."""
+    from ..absbase import seed_from_init
+    ccls = repo.cls("TimeComponent") if repo.has_cls("TimeComponent") else repo.cls("Component")
+    f = repo.resolve(ccls, "connect", "method")
+    worst = None
+    try:
+        for before, want_hook, want_status in (("INITIALIZED", 0, "CONNECTING"), ("CONNECTING", 1, "CONNECTING"), ("CONNECTING_IDLE", 1, "CONNECTING_IDLE")):
+            it = _WrapInterp(repo, "_connect", None)
+            pings = []
+
+            class _P(_WrapInterp):
+                def call_hook(self, fv, args, kwargs, node, mod):
+                    if isinstance(fv, Sym) and fv.op == "inping":
+                        pings.append(1)
+                        return None
+                    return super().call_hook(fv, args, kwargs, node, mod)
+
+            it = _P(repo, "_connect", None)
+            me = Obj(cls=ccls, label="component")
+            seed_from_init(it, ccls, me, {})
+            slots_in, slots_out = Obj(label="slots"), Obj(label="slots")
+            slots_in.fields["_slot_items"] = [("i", Obj(label="in-stub")), ("j", Obj(label="in-stub"))]
+            me.fields.update(logger=Logger(label="logger"), name="c", _name="c", time=0, inputs=slots_in, outputs=slots_out)
+            it.store_attr(me, "status", _st(before), None)
+            try:
+                it.run(f, [0], self_obj=me)
+            except Raised as r:
+                worst = worst or f"status {before}: connect() raises {r.name}"
+                continue
+            g = repo.resolve(ccls, "status", "getter")
+            got = it.run(g, [], self_obj=me)
+            if it.hook_calls != want_hook:
+                worst = worst or f"status {before}: connect() runs _connect() {it.hook_calls} times, expected {want_hook}"
+            elif before == "INITIALIZED" and len(pings) != 2:
+                worst = worst or f"the first connect() pings {len(pings)} of 2 inputs"
+            elif before != "INITIALIZED" and pings:
+                worst = worst or f"status {before}: connect() pings the inputs again"
+            elif got != _st(want_status):
+                worst = worst or f"status {before}: after connect() the status is {got!r}, expected {want_status}"
+    except (AnalysisError, Undecided) as exc:
+        sink.unknown("R07", "wrapper:connect", f, f"connect() outside vocabulary: {exc}")
+        return
+    sink.check(worst is None, "R07", "wrapper:connect", f, ok="connect(): ping phase on the first call, the hook once on every later call, never both",
+               bad=worst or "")
+
+
+def r07t_finishing(repo, sink):
+    """A component that declares itself FINISHED in an update (before the end time) is accepted,
+    never updated again, does not stop the others, and is finalized like everybody else."""
+    comp_cls = repo.cls("Composition")
+    run = repo.resolve(comp_cls, "run", "method")
+    for name, script, end in (("one-of-two", {"A": dict(step=1, connect_calls=1, finish_at=2), "B": dict(step=2, connect_calls=1)}, 8),
+                              ("the-only-one", {"A": dict(step=2, connect_calls=1, finish_at=4)}, 9),
+                              ("never-updated-bystander", {"A": dict(step=1, connect_calls=1), "B": dict(step=1, connect_calls=1, _t0=50)}, 5)):
+        try:
+            it, outcome = _drive(repo, script, end=end)
+        except (AnalysisError, Undecided) as exc:
+            sink.unknown("R07", f"finishing:{name}", run, f"outside vocabulary: {exc}")
+            continue
+        why = None
+        if outcome is not None:
+            why = f"the run ends in {outcome}"
+        else:
+            for n, sc in script.items():
+                seq = [p for c, p in it.trace if c == n]
+                if sc.get("finish_at") is not None:
+                    need = -(-sc["finish_at"] // sc["step"])
+                    if seq.count("update") != need:
+                        why = why or f"{n} finishes itself after {need} updates but is updated {seq.count('update')} times"
+                if seq.count("finalize") != 1:
+                    why = why or f"{n} is finalized {seq.count('finalize')} times"
+            others = [n for n, sc in script.items() if sc.get("finish_at") is None and not sc.get("_t0")]
+            for n in others:
+                ups = [p for c, p in it.trace if c == n].count("update")
+                if ups * script[n]["step"] < end:
+                    why = why or f"{n} stops at time {ups * script[n]['step']} before the end time {end} after another component finished"
+        sink.check(why is None, "R07", f"finishing:{name}", run,
+                   ok="a self-declared FINISHED (or never updated) component is accepted, not updated again and finalized once; the others run to the end",
+                   bad=f"scenario {name}: {why}")
